@@ -157,6 +157,9 @@ pub fn decorate(name: &str, src: &[u8]) -> Option<Vec<u8>> {
             let mut seg = vec![0xff, 0xeb]; seg.extend_from_slice(&((2 + payload.len()) as u16).to_be_bytes()); seg.extend_from_slice(&payload);
             let mut pos = 2;
             if src.get(2..4) == Some(&[0xff, 0xe0]) { pos += 2 + u16::from_be_bytes([src[4], src[5]]) as usize; }
+            // and two rarely seen marker segments with a length field: DAC (arithmetic conditioning) and a comment
+            seg.extend_from_slice(&[0xff, 0xcc, 0x00, 0x08, 0x00, 0x10, 0x01, 0x10, 0x10, 0x05]);
+            seg.extend_from_slice(&[0xff, 0xfe, 0x00, 0x0c]); seg.extend_from_slice(b"vh comment");
             let mut o = src[..pos].to_vec(); o.extend_from_slice(&seg); o.extend_from_slice(&src[pos..]); Some(o)
         }
         "png" => {
